@@ -41,7 +41,7 @@ struct vu_shape {
 	VU_RNG_ND(pfx, scheme); VU_RNG_ND(pfx, userInfo); VU_RNG_ND(pfx, hostText); VU_RNG_ND(pfx, port); \
 	VU_RNG_ND(pfx, query); VU_RNG_ND(pfx, fragment); \
 	ND(unsigned char, pfx##_hostkind); pfx.hostkind = pfx##_hostkind; \
-	ND_ARR(unsigned char, pfx##_ip, 16); memcpy(pfx.ip, pfx##_ip, 16); \
+	ND_ARR(unsigned char, pfx##_ip, 16); { int i_; for (i_ = 0; i_ < 16; i_++) pfx.ip[i_] = pfx##_ip[i_]; } \
 	ND(unsigned char, pfx##_nseg); pfx.nseg = pfx##_nseg; \
 	ND_ARR(signed char, pfx##_seglen, VM > 0 ? VM : 1); ND_ARR(unsigned char, pfx##_segoff, VM > 0 ? VM : 1); \
 	{ int i_; for (i_ = 0; i_ < VM; i_++) { pfx.seg[i_].len = pfx##_seglen[i_]; pfx.seg[i_].off = pfx##_segoff[i_]; } } \
@@ -111,10 +111,10 @@ static void vu_build(URI_TYPE(Uri) *u, const struct vu_shape *s, const URI_CHAR 
 	vu_set_range(&u->fragment, &s->fragment, pool, owned);
 	if (s->hostkind == VU_HK_IP4) {
 		u->hostData.ip4 = vmm_give(sizeof(UriIp4)); vu_nblocks_owned++;
-		memcpy(u->hostData.ip4->data, s->ip, 4);
+		for (i = 0; i < 4; i++) u->hostData.ip4->data[i] = s->ip[i];
 	} else if (s->hostkind == VU_HK_IP6) {
 		u->hostData.ip6 = vmm_give(sizeof(UriIp6)); vu_nblocks_owned++;
-		memcpy(u->hostData.ip6->data, s->ip, 16);
+		for (i = 0; i < 16; i++) u->hostData.ip6->data[i] = s->ip[i];
 	} else if (s->hostkind == VU_HK_FUT) {
 		u->hostData.ipFuture = u->hostText;       /* shared range, as the parser leaves it */
 	}
